@@ -8,6 +8,7 @@
 #include <string_theory/iostream>
 
 #include <atomic>
+#include <new>
 #include <cmath>
 #include <sstream>
 #include <thread>
@@ -29,6 +30,15 @@ const verif::Info verif_info = {
     "(any report = violation) and per-thread FNV digest of every returned value == digest of the same program executed alone before the threads start. Non-trivial: >= 2 threads "
     "execute >= 1 operation on the same shared object or the same formatting/codec/conversion function.",
     false, "exploration"};
+
+// Per-thread allocation faults (the faulted round below): the n-th operator new / new[] called by code compiled into this translation
+// unit - i.e. by string_theory, which is header-only - throws std::bad_alloc in THIS thread.  The ThreadSanitizer runtime defines the
+// global operator new itself, so the calls are redirected at link time instead (-Wl,--wrap=_Znam,--wrap=_Znwm, see props/C20.py).
+namespace faults { thread_local long countdown = 0; std::atomic<long> delivered{0}; }
+extern "C" void *__real__Znam(size_t);
+extern "C" void *__real__Znwm(size_t);
+extern "C" void *__wrap__Znam(size_t n) { if (faults::countdown > 0 && --faults::countdown == 0) { faults::delivered.fetch_add(1, std::memory_order_relaxed); throw std::bad_alloc(); } return __real__Znam(n); }
+extern "C" void *__wrap__Znwm(size_t n) { if (faults::countdown > 0 && --faults::countdown == 0) { faults::delivered.fetch_add(1, std::memory_order_relaxed); throw std::bad_alloc(); } return __real__Znwm(n); }
 
 namespace {
 
@@ -156,6 +166,20 @@ uint64_t run_program(const Pool &P, const std::vector<Op> &ops) {
     return D.h;
 }
 
+// The same program with an allocation failure injected into every operation (the k-th allocation of the operation throws, k = 1..6 by the
+// operation's bytes).  Results are not compared - which allocation is the k-th may legitimately depend on what other threads do - the round
+// exists so that the library's failure paths run concurrently with fault-free work in the other threads (ThreadSanitizer / a crash decide).
+void run_program_faulted(const Pool &P, const std::vector<Op> &ops) {
+    Digest D; Local L;
+    size_t i = 0;
+    for (const Op &op : ops) {
+        faults::countdown = 1 + (long)((op.a * 7u + op.b + i++) % 6);
+        try { run_op(P, op, L, D); }
+        catch (...) { }
+        faults::countdown = 0;
+    }
+}
+
 void build_pool(verif::Reader &r, Pool &P) {
     static const char *const words[] = {"the", "quick", "brown", "fox", "THE", "Lazy", "dog", "aa", "aab", "abab", "\xC3\xA9t\xC3\xA9", "\xE2\x82\xAC", "\xF0\x9F\x98\x80", "12345", "-77", "0x7fff", "3.14159e10", "1e-5", "true", "QUJD", "4142"};
     static const char *const seps[] = {" ", ",", ", ", ";", "-", "  ", ":", ""};
@@ -213,10 +237,11 @@ int verif_case(const uint8_t *data, size_t size, Case &c) {
         c.text += " pool sizes=["; for (int i = 0; i < Pool::N; i++) { if (i) c.text += ","; c.text += std::to_string(P->s[i].size()); } c.text += "]";
     }
     // together (first: see below)
-    enum { ROUNDS = 4 };
+    enum { ROUNDS = 5, FAULT_ROUND = 3 };      // rounds 0..2 plain, round 3 with injected allocation failures in the odd threads, round 4 plain again
     std::atomic<unsigned> arrived[ROUNDS];
     for (auto &a : arrived) a.store(0);
     std::vector<uint64_t> got((size_t)nthreads * ROUNDS, 0);
+    const long faults_before = faults::delivered.load();
     std::vector<std::thread> th;
     const Pool &CP = *P;
     for (unsigned t = 0; t < nthreads; t++)
@@ -225,10 +250,12 @@ int verif_case(const uint8_t *data, size_t size, Case &c) {
             for (int round = 0; round < ROUNDS; round++) {
                 arrived[round].fetch_add(1, std::memory_order_relaxed);      // relaxed: the barrier must not create happens-before edges that would hide a race
                 while (arrived[round].load(std::memory_order_relaxed) < nthreads) std::this_thread::yield();
-                got[(size_t)t * ROUNDS + round] = run_program(CP, prog);
+                if (round == FAULT_ROUND && (t & 1)) { run_program_faulted(CP, prog); got[(size_t)t * ROUNDS + round] = 0; }
+                else got[(size_t)t * ROUNDS + round] = run_program(CP, prog);
             }
         });
     for (auto &x : th) x.join();
+    if (faults::delivered.load() > faults_before) c.label("faulted-round:allocation-failures-delivered");
     // alone - AFTER the threads: whatever the library builds on first use (tables, caches) is first touched by the concurrent
     // phase, in every process and for every operation kind, so ThreadSanitizer sees unsynchronised first-use initialisation
     std::vector<uint64_t> expect(nprog);
@@ -237,7 +264,7 @@ int verif_case(const uint8_t *data, size_t size, Case &c) {
     std::string why;
     for (unsigned t = 0; t < nthreads && why.empty(); t++)
         for (int round = 0; round < ROUNDS; round++)
-            if (got[(size_t)t * ROUNDS + round] != expect[same ? 0 : t]) { why = "thread " + std::to_string(t) + " round " + std::to_string(round) + " obtained results that differ from the same program run alone (digest mismatch)"; break; }
+            if (!(round == FAULT_ROUND && (t & 1)) && got[(size_t)t * ROUNDS + round] != expect[same ? 0 : t]) { why = "thread " + std::to_string(t) + " round " + std::to_string(round) + " obtained results that differ from the same program run alone (digest mismatch)"; break; }
     // the shared objects must be unchanged
     delete P;
     if (!why.empty()) return c.fail(why);
